@@ -28,6 +28,10 @@ type Input struct {
 	AstCoq string `json:"ast_coq"` // Gallina term of the abstract syntax the text renders ("" = none)
 	Ast    string `json:"ast"`     // the same, human readable
 	Stream string `json:"stream"`
+	// Warm: before the observed call the same text goes through the OTHER entry points / switch
+	// combinations of the parser in this process (the parser has to be a function of its arguments:
+	// no cache, intern table or cursor may carry anything over from an earlier call)
+	Warm bool `json:"warm"`
 }
 
 func init() {
@@ -187,6 +191,14 @@ func Run(in Input) *common.Case {
 	classes := []string{in.Kind + ":" + in.Stream}
 	switch in.Kind {
 	case "atom":
+		if in.Warm {
+			withLimit(func() {
+				atom.RawParseAtom(text, !in.Vnr, in.AsDep)
+				atom.RawParseAtom(text, !in.Vnr, !in.AsDep)
+				atom.RawParseAtom(text, in.Vnr, !in.AsDep)
+				depend.DecodeDependencies([]byte(text))
+			})
+		}
 		t, d, ok := runAtom(text, in.Vnr, in.AsDep)
 		desc["obs"] = d
 		c.Coq = q.App("C14.CAtom", ast, q.Hx(text), q.Bool(in.Vnr), q.Bool(in.AsDep), q.App("C14.OAtom", t))
@@ -197,6 +209,14 @@ func Run(in Input) *common.Case {
 		}
 		classes = append(classes, "atom:"+resClass(t))
 	default:
+		if in.Warm {
+			withLimit(func() {
+				for _, w := range strings.Fields(text) {
+					atom.RawParseAtom(w, false, false)
+					atom.RawParseAtom(w, true, true)
+				}
+			})
+		}
 		t, d, ok, depth := runDep(text)
 		desc["obs"] = d
 		c.Coq = q.App("C14.CDep", ast, q.Hx(text), t)
